@@ -35,6 +35,7 @@ PLANS = {
     "C10": dict(drive=True),
     "C11": dict(drive=True),
     "C12": dict(drive=True),
+    "C13": dict(drive=True),
     "C16": dict(
         mcgen=[dict(model="MC_Round", quick="MC_Round_quick.cfg", thorough="MC_Round_thorough.cfg")],
         drive=True,
